@@ -118,9 +118,9 @@ def search(ctx):
     def sf(hkl, cell, name, atoms, disper):
         return complex(*structure.StructureFactor(list(hkl), cell, name, [SF.Atom(**a.__dict__) for a in atoms], disper))
 
-    for no in groups:
-        s = sg.sg(sgno=no)
-        name = s.name
+    for no, ch in [(no, 'standard') for no in groups] + [(no, 'rhombohedral') for no in (146, 148, 155, 160, 161, 166, 167)]:
+        s = sg.sg(sgno=no, cell_choice=ch)
+        name = s.name                   # R...r for the rhombohedral settings
         for rep in range(ctx.n(1, 3) * (2 if deep else 1)):
             cell = HR.conforming_cell(rng, s.crystal_system, s.cell_choice)
             atoms = make_structure(rng, s, cell, rng.randint(1, 4), rng.choice([0.0, 0.5, 1.0]))
@@ -185,7 +185,7 @@ def search(ctx):
                 except Exception as e:
                     why, cls = 'raised %s: %s' % (type(e).__name__, e), 'exc'
                 nspecial = sum(1 for a in atoms if a.symmulti != s.nsymop)
-                ctx.count(('sf', no, rep, q), hist='search:disper=%s special=%s' % (mode, 'yes' if nspecial else 'no'),
+                ctx.count(('sf', no, ch, rep, q), hist='search:disper=%s special=%s' % (mode, 'yes' if nspecial else 'no'),
                           sample={'sgname': name, 'hkl': h, 'natoms': len(atoms), 'disper': mode} if no == 14 and q == 1 else None)
                 if why and (cls, no if len(fails) < 3 else 0) not in seen:
                     seen.add((cls, no if len(fails) < 3 else 0))
